@@ -124,6 +124,36 @@ func All() []Query {
 			return st.ServiceDump(ws, structs.ServiceKindConnectProxy, true, structs.WildcardEnterpriseMetaInDefaultPartition(), peer)
 		})
 	}
+	// ---- the same lists restricted by node metadata (a node enters or leaves them when only its metadata changes)
+	for _, f := range []map[string]string{{"role": "db"}} {
+		f := f
+		add("nodemeta", "catalog.nodes(meta role=db)", func(st *state.Store, ws memdb.WatchSet) (uint64, any, error) { return st.NodesByMeta(ws, f, nil, "") })
+		add("nodemeta", "catalog.services(meta role=db)", func(st *state.Store, ws memdb.WatchSet) (uint64, any, error) {
+			i, l, err := st.ServicesByNodeMeta(ws, f, nil, "")
+			var names []string
+			for _, x := range l {
+				names = append(names, x.Node+"/"+x.ServiceID+"="+x.ServiceName)
+			}
+			sort.Strings(names)
+			return i, names, err
+		})
+		add("nodemeta", "health.service-checks(web,meta role=db)", func(st *state.Store, ws memdb.WatchSet) (uint64, any, error) {
+			return st.ServiceChecksByNodeMeta(ws, "web", f, nil, "")
+		})
+		add("nodemeta", "health.state(any,meta role=db)", func(st *state.Store, ws memdb.WatchSet) (uint64, any, error) {
+			return st.ChecksInStateByNodeMeta(ws, api.HealthAny, f, nil, "")
+		})
+		add("nodemeta", "catalog.service-nodes(web,meta role=db)", func(st *state.Store, ws memdb.WatchSet) (uint64, any, error) {
+			i, l, err := st.ServiceNodes(ws, "web", nil, "")
+			var out structs.ServiceNodes
+			for _, x := range l {
+				if structs.SatisfiesMetaFilters(x.NodeMeta, f) {
+					out = append(out, x)
+				}
+			}
+			return i, out, err
+		})
+	}
 	add("catalog", "catalog.node-dump", func(st *state.Store, ws memdb.WatchSet) (uint64, any, error) { return st.NodeDump(ws, nil, "") })
 	add("catalog", "catalog.gateway-services(tgw)", func(st *state.Store, ws memdb.WatchSet) (uint64, any, error) { return st.GatewayServices(ws, "tgw", nil) })
 	add("catalog", "catalog.gateway-services(igw)", func(st *state.Store, ws memdb.WatchSet) (uint64, any, error) { return st.GatewayServices(ws, "igw", nil) })
